@@ -1,0 +1,32 @@
+//go:build verif
+
+// Contracts for package eventlogger, checked by /verif/govc (comment-only file; see /verif/DESIGN.md).
+
+package eventlogger
+
+//@ func (Status).getError(ctxErr, threshold, thresholdSinks) (err)
+//@   ensures C02/err-iff-below-threshold: (err == nil) <==> (len(s.complete) >= threshold && len(s.completeSinks) >= thresholdSinks)
+//@   ensures C02/err-wraps-ctx: err != nil && ctxErr != nil ==> wraps(err, ctxErr)
+
+//@ type Broker guarded_by lock: nodes, graphs
+//@ type Broker callback_free lock
+//@ type Broker exempt clock: StopTimeAt is documented test-only and not in any property's call list
+//@ type graph guarded_by Broker.lock: successThreshold, successThresholdSinks
+//@ type nodeUsage guarded_by Broker.lock: node, referenceCount, registrationPolicy
+
+//@ pure wfGraphs(b *Broker) bool = b.graphs != nil && (forall t1 EventType, t2 EventType :: (t1 in b.graphs) && (t2 in b.graphs) && t1 != t2 ==> b.graphs[t1] != b.graphs[t2]) && (forall t3 EventType :: (t3 in b.graphs) ==> b.graphs[t3] != nil && allocated(b.graphs[t3]))
+
+//@ func (*Broker).SetSuccessThreshold(t, successThreshold) (err)
+//@   requires b != nil && noLocksHeld() && wfGraphs(b)
+//@   ensures C02/reject: (t == "" || successThreshold < 0) ==> err != nil && (forall g *graph :: old(allocated(g)) ==> g.successThreshold == old(g.successThreshold)) && (forall u EventType :: (u in b.graphs) == old(u in b.graphs))
+//@   ensures C02/set: !(t == "" || successThreshold < 0) ==> err == nil && (t in b.graphs) && b.graphs[t].successThreshold == successThreshold
+//@   ensures C02/other-types-untouched: forall u EventType :: u != t && old(u in b.graphs) ==> (u in b.graphs) && b.graphs[u] == old(b.graphs[u]) && b.graphs[u].successThreshold == old(b.graphs[u].successThreshold)
+//@   ensures C02/other-threshold-untouched: forall g *graph :: old(allocated(g)) ==> g.successThresholdSinks == old(g.successThresholdSinks)
+//@   ensures C02/fresh-graph-zero-sinks: !(t == "" || successThreshold < 0) && !old(t in b.graphs) ==> b.graphs[t].successThresholdSinks == 0
+//@   ensures wf: wfGraphs(b)
+//@   ensures unlocked: noLocksHeld()
+
+//@ func (*Broker).SuccessThreshold(t) (n, ok)
+//@   requires b != nil && noLocksHeld() && wfGraphs(b)
+//@   ensures C02/reads-back: ok == (t in b.graphs) && (ok ==> n == b.graphs[t].successThreshold) && (!ok ==> n == 0)
+//@   ensures unlocked: noLocksHeld()
